@@ -18,6 +18,7 @@ Fixpoint supported (t : node) : bool :=
       (fix go (l : list node) : bool := match l with [] => true | x :: l' => supported x && go l' end) l
   | NCapture _ g u r => (u =? -1) && supported r
   | NGroup r => supported r
+  | NLoop _ _ m n r => (0 <=? m) && (n <=? INF) && supported r
   | _ => false
   end.
 
@@ -164,6 +165,7 @@ Proof.
   - split; [exact I|]. apply andb_prop in Hs. destruct Hs as [_ Hs].
     change (supported_list l = true) in Hs. apply cc_supported_list_forall in Hs.
     induction H as [|x l Hx Hl IH]; [exact I|]. inversion Hs; subst. split; [apply Hx; assumption|apply IH; assumption].
+  - apply andb_prop in Hs. destruct Hs as [_ Hs]. split; [exact I|apply IHt; exact Hs].
   - apply andb_prop in Hs. destruct Hs as [_ Hs]. split; [exact I|apply IHt; exact Hs].
   - split; [exact I|apply IHt; exact Hs].
 Qed.
